@@ -278,6 +278,7 @@ type Env struct {
 	Getter *Func // non-nil: values are obtained through this package-local helper (the file need not import the type's package)
 	AliasM *Func // a method declared with an alias of t as receiver type: func (r AlT) ViaAlias()  (nil unless hostile)
 	ParenM *Func // a method declared with a parenthesised receiver type: func (r (*T)) ViaParen()
+	PtrAliasM *Func // a method declared with an alias of *T as receiver: type PAlT = *T; func (r PAlT) ViaPtrAlias()
 }
 
 func callNew(t *Type, env *Env) (string, *Use) {
@@ -575,6 +576,9 @@ func useTemplates() []Tmpl {
 		if env.ParenM != nil {
 			ns = append(ns, b.stmt(x+"."+env.ParenM.Name+"()", &Use{Kind: UMethodRef, Fn: env.ParenM, Call: true, Feature: "paren-receiver-method"}))
 		}
+		if env.PtrAliasM != nil {
+			ns = append(ns, b.stmt(x+"."+env.PtrAliasM.Name+"()", &Use{Kind: UMethodRef, Fn: env.PtrAliasM, Call: true, Feature: "pointer-alias-receiver-method"}))
+		}
 		return append(ns, b.stmt("_ = "+x))
 	}})
 	// a parenthesised callee is still a call of the function / method
@@ -642,6 +646,8 @@ func useTemplates() []Tmpl {
 	// fields reached through struct embedding (promoted): "x.F = 1" stands for "x.T.F = 1"
 	ts = append(ts, Tmpl{Name: "promoted-field-through-embedding", Cat: IMM, Kind: "struct", Decl: true, Make: func(b *B, t *Type, env *Env) []*Node {
 		on, opn := b.d("holder"), b.d("holderp")
+		o2, o3 := b.d("holder2"), b.d("holder3")
+		z, w := b.v(), b.v()
 		d1 := &Node{Pre: []*Line{b.line("type " + on + " struct {")}, Kids: []*Node{b.tstmt("%T", refT(t, SubField))}, Post: []*Line{b.line("}")}}
 		d2 := &Node{Pre: []*Line{b.line("type " + opn + " struct {")}, Kids: []*Node{b.tstmt("*%T", refT(t, SubField))}, Post: []*Line{b.line("}")}}
 		fn := &Node{Fn: &Func{Name: b.d("viaHolder")}}
@@ -663,9 +669,19 @@ func useTemplates() []Tmpl {
 			b.stmt(y+".S[0] = 4", pf(UFieldIndexAssign, "S")),
 			b.stmt(y+".MS[0] = 5", pf(UFieldIndexAssign, "MS")),
 			b.stmt("_ = " + x + ".F"),
+			// two levels: a pointer hop that is not the last one, and pointers on both levels
+			b.stmt("var " + z + " " + o2),
+			b.stmt(z+".F = 6", pf(UFieldAssign, "F")),
+			b.stmt(z+".F++", pf(UFieldIncDec, "F")),
+			b.stmt(z+".G = 7", pf(UFieldAssign, "G")),
+			b.stmt("var " + w + " " + o3),
+			b.stmt(w+".F *= 8", pf(UFieldOpAssign, "F")),
+			b.stmt(w+".S[1] = 9", pf(UFieldIndexAssign, "S")),
 		}
 		fn.Post = []*Line{b.line("}")}
-		return []*Node{d1, d2, fn}
+		d3 := &Node{Pre: []*Line{b.line("type " + o2 + " struct{ *" + on + " }")}}
+		d4 := &Node{Pre: []*Line{b.line("type " + o3 + " struct{ *" + opn + " }")}}
+		return []*Node{d1, d2, d3, d4, fn}
 	}})
 	// constants are not variable declarations: an iota group repeats the type implicitly (ValueSpec without type and values)
 	ts = append(ts, Tmpl{Name: "const-iota-group", Cat: CTOR, Kind: "int", Decl: true, Make: func(b *B, t *Type, env *Env) []*Node {
@@ -730,6 +746,10 @@ func useTemplates() []Tmpl {
 	// FREE for TONL (PKGO still demands): conversion-like mentions
 	ts = append(ts, Tmpl{Name: "decl-composite-types", Cat: TONL, Decl: true, Make: func(b *B, t *Type, env *Env) []*Node {
 		h := &Node{Pre: []*Line{b.line("type " + b.d("holdc") + " struct {")}, Kids: []*Node{b.tstmt("byName map[string]*%T", composite(refT(t, SubField)))}, Post: []*Line{b.line("}")}}
+		hk := &Node{Pre: []*Line{b.line("type " + b.d("holdk") + " struct {")}, Kids: []*Node{b.tstmt("seen map[*%T]bool", composite(refT(t, SubField)))}, Post: []*Line{b.line("}")}}
+		fk := &Node{Fn: &Func{Name: b.d("fmapkey")}}
+		fk.Pre = []*Line{b.tl("func "+fk.Fn.Name+"(v1 []map[*%T]int) {", composite(refT(t, SubParam)))}
+		fk.Post = []*Line{b.line("}")}
 		f1 := &Node{Fn: &Func{Name: b.d("fvariadic")}}
 		f1.Pre = []*Line{b.tl("func "+f1.Fn.Name+"(v1 ...%T) {", composite(refT(t, SubParam)))}
 		f1.Post = []*Line{b.line("}")}
@@ -740,7 +760,7 @@ func useTemplates() []Tmpl {
 		f3 := &Node{Fn: &Func{Name: b.d("ffunc")}}
 		f3.Pre = []*Line{b.tl("func "+f3.Fn.Name+"(v1 func(**%T) int) {", composite(refT(t, SubParam)))}
 		f3.Post = []*Line{b.line("}")}
-		return []*Node{h, f1, f2, f3}
+		return []*Node{h, f1, f2, f3, hk, fk}
 	}})
 	ts = append(ts, Tmpl{Name: "var-slice-of", Cat: PKGO, Make: func(b *B, t *Type, env *Env) []*Node {
 		x := b.v()
